@@ -3,7 +3,8 @@
    per-structure instances (which builder ORs which bit into which field) are in the Impl files and are compared with the
    crate and with the reference layouts by the correspondence run. *)
 From Coq Require Import NArith List.
-From ACPI Require Import Lib.Bytes Lib.Sx Impl.Fields Proofs.FlagsP.
+From ACPI Require Import Lib.Bytes Lib.Sx Lib.Machine Impl.Fields Impl.Fadt Spec.Layout Spec.FadtS Proofs.FlagsP Proofs.FixedP Proofs.RefFixedCommonP Proofs.FadtRefP.
+From ACPI Require Import Impl.Table Impl.Cedt Spec.CedtS Proofs.CedtRefP.
 Import ListNotations.
 Open Scope N_scope.
 
@@ -35,8 +36,31 @@ Theorem c11_image_from_fields :
   forall f g, map fst f = map fst g -> (forall j, fget f j = fget g j) -> ser_flds f = ser_flds g.
 Proof. exact ser_flds_ext. Qed.
 
+(* Instance, FADT: for every constructor argument and every sequence of builder calls inside the reference's domain (any order,
+   any repetition, interleaved with the other builders and the profile selectors), in both build profiles, the Flags dword at
+   offset 112 of the emitted table is exactly the union of the specification bits (flag_ref, Spec/FadtS.v) of the flags
+   requested; that nothing else of the image moves is c04_fixed_structures_refine (the image equals the reference image). *)
+Theorem c11_fadt_flags :
+  forall md ctor ops r,
+    ts_image fadt_spec ctor ops = Some r -> fadt_ctor_bytes ctor ->
+    exists f0 f, fadt_new ctor = Some f0 /\ run_steps (fadt_step md) f0 ops = Some f /\
+                 field_at (fadt_image f) 112 4 = fold_left N.lor (concat (map spec_flag_call ops)) 0 mod 2 ^ 32.
+Proof. exact fadt_refines_flags. Qed.
+
+(* Instance, CEDT fixed memory window: whenever the reference accepts the structure, the model emits it byte for byte, and its
+   window-restrictions word (offset 32) is the sum of the distinct bits 1 2 4 8 16 of exactly the restriction options invoked
+   (cedt_invoked k: option k occurs in the builder list), whatever their order and repetition *)
+Theorem c11_cedt_window_restrictions :
+  forall s base size arith gran ways qtg builders targets r,
+    let o := SL [SA 2; SA base; SA size; SA arith; SA gran; SA ways; SA qtg; SL builders; SL targets] in
+    cedt_entry_ref o = Some r ->
+    exists e, cedt_addition s o = Some e /\ a_bytes e = r /\ field_at (a_bytes e) 32 2 = cedt_restrictions builders.
+Proof. exact cfmws_refined_restrictions. Qed.
+
 Print Assumptions c11_union_and_frame.
 Print Assumptions c11_order_and_repetition_irrelevant.
 Print Assumptions c11_bit_set_iff_invoked.
 Print Assumptions c11_setter_frame.
 Print Assumptions c11_image_from_fields.
+Print Assumptions c11_fadt_flags.
+Print Assumptions c11_cedt_window_restrictions.
